@@ -92,7 +92,22 @@ fn v1_kind_name(e: &v1::ParseError) -> &'static str {
     }
 }
 
-fn show_v1_addr(a: &v1::Addresses) -> String { format!("{:?}", a) }
+/// the decoded addresses in the oracle's notation, from the FIELDS (not from `derive(Debug)`, whose text is no part of any property)
+fn show_v1_addr(a: &v1::Addresses) -> String {
+    match a {
+        v1::Addresses::Unknown => "Unknown".into(),
+        v1::Addresses::Tcp4(x) => format!("Tcp4(IPv4 {{ source_address: {}, source_port: {}, destination_address: {}, destination_port: {} }})", x.source_address, x.source_port, x.destination_address, x.destination_port),
+        v1::Addresses::Tcp6(x) => format!("Tcp6(IPv6 {{ source_address: {}, source_port: {}, destination_address: {}, destination_port: {} }})", x.source_address, x.source_port, x.destination_address, x.destination_port),
+    }
+}
+fn show_v2_addr(a: &v2::Addresses) -> String {
+    match a {
+        v2::Addresses::Unspecified => "Unspecified".into(),
+        v2::Addresses::IPv4(x) => format!("IPv4(IPv4 {{ source_address: {}, source_port: {}, destination_address: {}, destination_port: {} }})", x.source_address, x.source_port, x.destination_address, x.destination_port),
+        v2::Addresses::IPv6(x) => format!("IPv6(IPv6 {{ source_address: {}, source_port: {}, destination_address: {}, destination_port: {} }})", x.source_address, x.source_port, x.destination_address, x.destination_port),
+        v2::Addresses::Unix(x) => format!("Unix(Unix {{ source: {:?}, destination: {:?} }})", &x.source[..], &x.destination[..]),
+    }
+}
 
 /// compares the byte entry point (and, for valid UTF-8, the text entry points) with the oracle
 /// lvl 0: acceptance and decoded result only; 1: + the incomplete / complete classification; 2: + the exact error kind
@@ -200,6 +215,17 @@ fn v2_cases() -> Vec<Vec<u8>> {
             for have in [0usize, l / 2, l.saturating_sub(1)] { if have < l { out.push(v2_header(0x21, f | 0x01, l as u16, &payload[..have])); } }
         }
     }
+    // well-formed, non-empty TLV sections after the address block (also followed by stray bytes)
+    for &(f, sz) in &fams {
+        if sz == 0 { continue; }
+        for stray in [0usize, 1, 2] {
+            let mut p = payload[..sz].to_vec();
+            p.extend_from_slice(&[4, 0, 0, 1, 0, 2, 0x68, 0x32, 0x20, 0, 3, 1, 2, 3, 0xEE, 0, 1, 9]);
+            p.extend_from_slice(&[5u8, 0][..stray]);
+            let h = v2_header(0x21, f | 0x01, p.len() as u16, &p);
+            out.push(h.clone()); out.push(h[..h.len() - 1].to_vec()); let mut t = h.clone(); t.extend_from_slice(b"xyz"); out.push(t);
+        }
+    }
     // long headers
     for l in [0x8000usize, 0xffff] { let big = vec![0xabu8; l]; out.push(v2_header(0x21, 0x11, l as u16, &big)); out.push(v2_header(0x20, 0x00, l as u16, &big[..l - 1])); }
     out.push(Vec::new());
@@ -213,7 +239,8 @@ fn check_v2_parts(input: &[u8], lvl: u8, views: bool) -> Option<Mismatch> {
     let want = oracle_v2(input);
     let got = match std::panic::catch_unwind(|| v2::Header::try_from(input)) { Ok(g) => g, Err(_) => return Some(Mismatch { case: hex(input), expected: format!("{:?}", want), actual: "PANIC in v2::Header::try_from".into() }) };
     let actual = match &got {
-        Ok(h) => V2Out::Accept { command: h.command as u8, protocol: h.protocol as u8, family: h.address_family() as u8, total: h.header.len(), addresses: format!("{:?}", h.addresses) },
+        Ok(h) => V2Out::Accept { command: h.command as u8, protocol: h.protocol as u8, family: h.address_family() as u8,
+                                 total: if h.header.as_ref() == &input[..h.header.len().min(input.len())] { h.header.len() } else { usize::MAX }, addresses: show_v2_addr(&h.addresses) },
         Err(e) => V2Out::Reject(format!("{:?}", e)),
     };
     let is_inc = |o: &V2Out| matches!(o, V2Out::Reject(t) if t.starts_with("Incomplete(") || t.starts_with("Partial("));
@@ -242,7 +269,7 @@ fn check_v2_parts(input: &[u8], lvl: u8, views: bool) -> Option<Mismatch> {
                 && h.length() == h.header.len() - 16 && !h.is_empty()
                 && h.address_bytes() == &input[16..end] && h.tlv_bytes() == &input[end..h.header.len()] && h.tlvs().as_bytes() == h.tlv_bytes()
                 && h.to_owned() == *h && h.addresses.len() == fam && (h.addresses.is_empty() == (fam == 0)) && u16::from(h.address_family()) as usize == fam;
-            let items: Vec<_> = h.tlvs().collect();
+            let items: Vec<_> = h.tlvs().take(h.tlv_bytes().len() / 3 + 7).collect();
             let want_items = oracle_tlv_walk(h.tlv_bytes());
             (ok, tlv_same(&items, &want_items, h.tlv_bytes().len()))
         });
@@ -259,7 +286,7 @@ fn tlv_same(items: &[Result<v2::TypeLengthValue<'_>, v2::ParseError>], want: &[T
     for (g, w) in items.iter().zip(want) {
         let ok = match (g, w) {
             (Ok(t), TlvItem::Tlv(k, v)) => t.kind == *k && t.value.as_ref() == &v[..] && t.len() == v.len() && t.is_empty() == v.is_empty() && t.to_owned() == *t,
-            (Err(v2::ParseError::Leftovers(_)), TlvItem::Short) => true,
+            (Err(_), TlvItem::Short) => true,      // "exactly one error item": the statement does not name its kind
             (Err(v2::ParseError::InvalidTLV(k, l)), TlvItem::Overrun(k2, l2)) => k == k2 && *l as usize == *l2,
             _ => false,
         };
@@ -294,20 +321,30 @@ fn check_tlv(section: &[u8]) -> Option<Mismatch> {
     let want = oracle_tlv_walk(section);
     let limit = section.len() / 3 + 2;
     let r = std::panic::catch_unwind(|| {
-        let it = v2::TypeLengthValues::from(section);
-        let items: Vec<_> = it.take(limit + 5).collect();
-        (items.len(), tlv_same(&items, &want, section.len()), it.as_bytes() == section, it.is_empty() == section.is_empty(), it.len() as usize == section.len() % 65536)
+        let mut it = v2::TypeLengthValues::from(section);
+        let items: Vec<_> = it.by_ref().take(limit + 5).collect();
+        // once it has ended it stays ended
+        let after = if items.len() <= limit { (0..3).all(|_| it.next().is_none()) } else { true };
+        let fresh = v2::TypeLengthValues::from(section);
+        (items.len(), tlv_same(&items, &want, section.len()), after, fresh.as_bytes() == section, fresh.is_empty() == section.is_empty(), fresh.len() as usize == section.len() % 65536)
     });
+    let case = format!("len={} {}", section.len(), hex(&section[..section.len().min(64)]));
     match r {
         Err(_) => Some(Mismatch { case: hex(&section[..section.len().min(64)]), expected: "iteration returns".into(), actual: "PANIC in TLV iteration".into() }),
-        Ok((n, same, b, e, l)) => if n > section.len() / 3 + 1 || !same {
-            Some(Mismatch { case: format!("len={} {}", section.len(), hex(&section[..section.len().min(64)])), expected: format!("{} items, standard walk", want.len()), actual: format!("{} items, same={}", n, same) })
+        Ok((n, same, after, b, e, l)) => if n > section.len() / 3 + 1 {
+            Some(Mismatch { case, expected: format!("at most {} items (n/3 + 1)", section.len() / 3 + 1), actual: format!("{} items or more", n) })
+        } else if !same {
+            Some(Mismatch { case, expected: format!("{} items, standard walk", want.len()), actual: format!("{} items, differing", n) })
+        } else if !after {
+            Some(Mismatch { case, expected: "no item after the end / after an error item".into(), actual: "next() yields again".into() })
         } else if !b || !e || (!l && section.len() <= 65535) {
-            // the raw-bytes view and the emptiness / length of the section (the 16-bit `len()` of a longer slice is not pinned)
-            Some(Mismatch { case: format!("len={} {}", section.len(), hex(&section[..section.len().min(64)])), expected: "as_bytes / is_empty / len describe the section".into(), actual: format!("as_bytes={} is_empty={} len={}", b, e, l) })
+            // the raw-bytes view and the emptiness / length of the section: not C11's business (the 16-bit `len()` of a longer slice is pinned by nothing)
+            Some(Mismatch { case, expected: "as_bytes / is_empty / len describe the section".into(), actual: format!("as_bytes={} is_empty={} len={}", b, e, l) })
         } else { None }
     }
 }
+/// the walk only (what C11 states): the accessor part of check_tlv is dropped
+fn check_tlv_walk(section: &[u8]) -> Option<Mismatch> { check_tlv(section).filter(|m| !m.expected.starts_with("as_bytes")) }
 
 // ---------------------------------------------------------------------------------------------
 // builder / encoders
@@ -317,7 +354,7 @@ enum Op { Reserve(usize), SetLen(Option<u16>), Bytes(usize), U8(u8), U16(u16), I
 
 fn builder_histories() -> Vec<(bool, Vec<Op>)> {
     use Op::*;
-    let small: Vec<Op> = vec![Reserve(10), SetLen(Some(5)), SetLen(None), Bytes(0), Bytes(3), U8(7), U16(0x1234), I32(-2), U64(0x0102030405060708), Tlv(4, 2), Pair(5, 1), TypeSsl, Batch(vec![1, 2]), Section(6), Addr4];
+    let small: Vec<Op> = vec![Reserve(10), SetLen(Some(5)), SetLen(Some(0)), SetLen(None), Bytes(0), Bytes(3), U8(7), U16(0x1234), I32(-2), U64(0x0102030405060708), Tlv(4, 2), Pair(5, 1), TypeSsl, Batch(vec![1, 2]), Section(6), Addr4];
     let mut out = Vec::new();
     for with_addr in [false, true] {
         out.push((with_addr, vec![]));
@@ -340,6 +377,8 @@ fn builder_histories() -> Vec<(bool, Vec<Op>)> {
         out.push((with_addr, vec![Tlv(2, 65505), Tlv(4, 12)]));
         out.push((with_addr, vec![Tlv(2, 65500), Batch(vec![1])]));
         out.push((with_addr, vec![Section(65536)]));
+        out.push((with_addr, vec![SetLen(Some(7)), Section(65536), U8(3)]));
+        out.push((with_addr, vec![SetLen(Some(7)), Bytes(65535), U8(1), TypeSsl, U16(0x0102), Tlv(4, 1)]));
     }
     out
 }
@@ -357,7 +396,7 @@ fn check_builder(with_addr: bool, ops: &[Op], prop: &str) -> Option<Mismatch> {
     // real_ok: what the real code did; enc_ok: the value is encodable (<= 65535 bytes) - otherwise it MUST be refused
     // in_domain: after this write at most 65535 bytes follow the fixed part (the headers C07 / C13 speak about)
     let dv = |real_ok: bool, enc_ok: bool, in_domain: bool, what: String| -> Result<Option<(String, String)>, String> {
-        if real_ok && !enc_ok && refusal_aspect { return Err(what + " (a value too large for its 16-bit length was accepted)"); }
+        if real_ok && !enc_ok && (len_aspect || (refusal_aspect && what.contains("tlv") || what.contains("(kind,"))) { return Err(what + " (a value too large for its 16-bit length was accepted)"); }
         if !real_ok && succeeds_aspect && in_domain { return Err(what + " was refused although the header still fits in 65535 bytes"); }
         Ok(None)
     };
@@ -420,11 +459,13 @@ fn check_builder(with_addr: bool, ops: &[Op], prop: &str) -> Option<Mismatch> {
 /// `limits`: also which value sizes an encoder accepts on its own (C20; C07 only speaks about what fits in a header)
 fn check_encoders(limits: bool) -> Option<Mismatch> {
     use v2::WriteToHeader;
+    if limits {
     macro_rules! int_case { ($v:expr) => {{ let v = $v; let want = v.to_be_bytes().to_vec(); let got = v.to_bytes().unwrap();
         let mut w = v2::Writer::from(vec![9u8, 8]); let n = v.write_to(&mut w).unwrap(); let out = w.finish();
         if got != want || n != want.len() || out[..2] != [9, 8] || out[2..] != want[..] { return Some(Mismatch { case: format!("{} = {:?}", stringify!($v), v), expected: hex(&want), actual: format!("to_bytes={} n={} out={}", hex(&got), n, hex(&out)) }); } }} }
     int_case!(0x12u8); int_case!(0x1234u16); int_case!(0x12345678u32); int_case!(0x0102030405060708u64); int_case!(0x0102030405060708090a0b0c0d0e0f10u128); int_case!(0x0102usize);
     int_case!(-2i8); int_case!(-2i16); int_case!(i32::MIN); int_case!(-2i64); int_case!(-2i128); int_case!(-2isize); int_case!(u64::MAX); int_case!(i128::MAX);
+    }
     let types = [(v2::Type::ALPN, 1u8), (v2::Type::Authority, 2), (v2::Type::CRC32C, 3), (v2::Type::NoOp, 4), (v2::Type::UniqueId, 5), (v2::Type::SSL, 0x20), (v2::Type::SSLVersion, 0x21),
         (v2::Type::SSLCommonName, 0x22), (v2::Type::SSLCipher, 0x23), (v2::Type::SSLSignatureAlgorithm, 0x24), (v2::Type::SSLKeyAlgorithm, 0x25), (v2::Type::NetworkNamespace, 0x30)];
     for (t, c) in types {
@@ -442,6 +483,7 @@ fn check_encoders(limits: bool) -> Option<Mismatch> {
             return Some(Mismatch { case: format!("value of {} bytes", n), expected: format!("encodable == {}", want_ok), actual: format!("tlv ok={} pair ok={} slice ok={}", a.is_ok(), b.is_ok(), c.is_ok()) });
         }
     }
+    if !limits { return None; }
     let big = vec![3u8; 70000];
     let sec = v2::TypeLengthValues::from(&big[..]);
     let mut w = v2::Writer::default();
@@ -462,7 +504,8 @@ fn check_constructors() -> Option<Mismatch> {
     let s6 = SocketAddr::V6(SocketAddrV6::new(a6, 11, 7, 3)); let d6 = SocketAddr::V6(SocketAddrV6::new(b6, 22, 1, 2));
     let ok = ok && v1::Addresses::from((s4, d4)) == v1::Addresses::Tcp4(x) && v2::Addresses::from((s4, d4)) == v2::Addresses::IPv4(x);
     let ok = ok && v1::Addresses::from((s6, d6)) == v1::Addresses::Tcp6(y) && v2::Addresses::from((s6, d6)) == v2::Addresses::IPv6(y);
-    let ok = ok && v1::Addresses::from((s4, d6)) == v1::Addresses::Unknown && v2::Addresses::from((s6, d4)) == v2::Addresses::Unspecified;
+    let ok = ok && v1::Addresses::from((s4, d6)) == v1::Addresses::Unknown && v2::Addresses::from((s6, d4)) == v2::Addresses::Unspecified
+        && v1::Addresses::from((s6, d4)) == v1::Addresses::Unknown && v2::Addresses::from((s4, d6)) == v2::Addresses::Unspecified;
     let (p, q) = ([1u8; 108], [2u8; 108]);
     let u = v2::Unix::new(p, q);
     let ok = ok && u.source == p && u.destination == q && v2::Addresses::from(u) == v2::Addresses::Unix(u) && v1::Addresses::default() == v1::Addresses::Unknown;
@@ -508,10 +551,14 @@ fn check_auto(input: &[u8]) -> Option<Mismatch> {
 fn check_auto_inner(input: &[u8]) -> Option<Mismatch> {
     let r2 = v2::Header::try_from(input);
     let r1 = v1::Header::try_from(input);
+    if r1.is_ok() && r2.is_ok() { return Some(Mismatch { case: hex(input), expected: "never accepted by both parsers".into(), actual: "v1 and v2 both accept".into() }); }
     let want: HeaderResult = if r2.is_err() && !r2.is_incomplete() { HeaderResult::V1(r1) } else { HeaderResult::V2(r2) };
     let got = HeaderResult::parse(input);
     let inc = match &want { HeaderResult::V1(r) => r.is_incomplete(), HeaderResult::V2(r) => r.is_incomplete() };
-    if got != want || got.is_incomplete() != inc || got.is_complete() == inc {
+    let accepted = |r: &HeaderResult| matches!(r, HeaderResult::V1(Ok(_)) | HeaderResult::V2(Ok(_)));
+    // an accepted header is returned unchanged with its version tag; a failure is pinned only as incomplete / terminal
+    let same = if accepted(&want) || accepted(&got) { got == want } else { true };
+    if !same || got.is_incomplete() != inc || got.is_complete() == inc {
         return Some(Mismatch { case: hex(input), expected: format!("{:?} incomplete={}", want, inc), actual: format!("{:?} incomplete={}", got, got.is_incomplete()) });
     }
     None
@@ -550,12 +597,15 @@ fn c12_v1_cases() -> Vec<(Vec<u8>, &'static str)> {
     }
     for end in ["\rX", "\r\r", "\r "] { out.push((format!("PROXY UNKNOWN{}", end).into_bytes(), "InvalidSuffix")); out.push((format!("PROXY UNKNOWN a b{}", end).into_bytes(), "InvalidSuffix")); }
     for n in [108usize, 109, 200] { let mut l = b"PROXY UNKNOWN ".to_vec(); while l.len() < n - 2 { l.push(b'x'); } l.extend_from_slice(b"\r\n"); out.push((l, "HeaderTooLong")); }
-    for n in [107usize, 108, 300] { out.push((vec![b'P'; n], "HeaderTooLong")); }
+    // (an over-long run of other bytes has two corrupted elements - keyword and length - and is not in the domain)
     out.push((b"PROXY UNKNOWN \xff\xfe\r\n".to_vec(), "InvalidUtf8"));
-    out.push((b"PROXY TCP4 1.2.3.4 5.6.7.8 80 443\r\xff".to_vec(), "InvalidUtf8"));
+    out.push((b"PROXY TCP4 1.2.3.4 5.6.7.8 80 443\r\xff".to_vec(), "InvalidUtf8|InvalidSuffix"));   // the byte after the CR / invalid UTF-8: either names it
     // the byte after the CR starts a multi-byte character that the end of the input cuts short: still terminal
     out.push((b"PROXY TCP4 1.2.3.4 5.6.7.8 80 443\r\xc3".to_vec(), "InvalidUtf8"));
     out.push((b"PROXY UNKNOWN\r\xe2\x82".to_vec(), "InvalidUtf8"));
+    // ... and a complete character there: the text entry point cannot cut inside it (InvalidSuffix), the byte entry point sees invalid UTF-8
+    out.push(("PROXY TCP4 1.2.3.4 5.6.7.8 80 443\r\u{e9}".as_bytes().to_vec(), "InvalidUtf8|InvalidSuffix"));
+    out.push(("PROXY UNKNOWN\r\u{20ac}".as_bytes().to_vec(), "InvalidUtf8|InvalidSuffix"));
     out
 }
 
@@ -569,17 +619,17 @@ fn check_c12_domain() -> (Option<Mismatch>, usize) {
             Err(v1::BinaryParseError::InvalidUtf8(_)) => ("InvalidUtf8".to_string(), got.is_incomplete()),
             Err(v1::BinaryParseError::Parse(e)) => (v1_kind_name(e).to_string(), got.is_incomplete()),
         };
-        if kind != want || incomplete || !got.is_complete() {
+        if !want.split('|').any(|w| w == kind) || incomplete || !got.is_complete() {
             return (Some(Mismatch { case: hex(&input), expected: format!("terminal error {} (one element corrupted)", want), actual: format!("{} incomplete={}", kind, incomplete) }), n);
         }
         // the same through the auto-detecting parser and, for UTF-8 input, the text entry point
         let rest = guarded(&input, "the auto-detecting / text entry point (C12)", || {
             let auto = HeaderResult::parse(&input[..]);
-            if auto != HeaderResult::V1(got) || auto.is_incomplete() { return Some(Mismatch { case: hex(&input), expected: format!("auto-detect: terminal {}", want), actual: format!("{:?}", auto) }); }
+            if matches!(auto, HeaderResult::V1(Ok(_)) | HeaderResult::V2(Ok(_))) || auto.is_incomplete() { return Some(Mismatch { case: hex(&input), expected: "auto-detect: a terminal error".into(), actual: format!("{:?}", auto) }); }
             if let Ok(text) = std::str::from_utf8(&input) {
                 let gs = v1::Header::try_from(text);
                 let ks = match &gs { Ok(_) => "Ok".to_string(), Err(e) => v1_kind_name(e).to_string() };
-                if ks != want || gs.is_incomplete() { return Some(Mismatch { case: hex(&input), expected: format!("text entry: terminal {}", want), actual: format!("{} incomplete={}", ks, gs.is_incomplete()) }); }
+                if !want.split('|').any(|w| w == ks) || gs.is_incomplete() { return Some(Mismatch { case: hex(&input), expected: format!("text entry: terminal {}", want), actual: format!("{} incomplete={}", ks, gs.is_incomplete()) }); }
             }
             None
         });
@@ -659,12 +709,12 @@ fn per_input(prop: &str) -> Vec<(&'static str, fn(&[u8]) -> Option<Mismatch>)> {
     match prop {
         "C01" => vec![("v1", v1_accept), ("v1", c01_fromstr)],
         "C02" => vec![("v2", v2_accept)],
-        "C03" => vec![("v1", v1_all), ("v2", v2_all), ("both", check_auto), ("both", meta_c04), ("both", meta_c05), ("v2", meta_c13), ("v2", meta_c14), ("v1", meta_c15), ("v2", meta_c16_v2), ("tlv", check_tlv)],
+        "C03" => vec![("tlv", check_tlv), ("both", c03_formatters), ("v1", v1_all), ("v2", v2_all), ("both", check_auto), ("both", meta_c04), ("both", meta_c05), ("v2", meta_c13), ("v2", meta_c14), ("v1", meta_c15), ("v2", meta_c16_v2)],
         "C04" => vec![("both", meta_c04)],
         "C05" => vec![("both", meta_c05)],
         "C06" => vec![("both", auto_both)],
         "C08" => vec![("v1", meta_c08)],
-        "C11" => vec![("tlv", check_tlv)],
+        "C11" => vec![("tlv", check_tlv_walk), ("v2", c11_of_header)],
         "C13" => vec![("v2", meta_c13)],
         "C14" => vec![("v2", meta_c14)],
         "C15" => vec![("v1", meta_c15)],
@@ -678,7 +728,7 @@ fn per_input(prop: &str) -> Vec<(&'static str, fn(&[u8]) -> Option<Mismatch>)> {
 fn run(prop: &str, one: Option<&str>) -> (Option<Mismatch>, usize) {
     let mut n = 0usize;
     // C03 is about panics and the TLV item bound only: other disagreements are not its business
-    let relevant = |m: &Mismatch| prop != "C03" || m.actual.starts_with("PANIC") || m.expected.contains("items, standard walk");
+    let relevant = |m: &Mismatch| prop != "C03" || m.actual.starts_with("PANIC") || m.expected.contains("items (n/3 + 1)");
     let checks = per_input(prop);
     if let Some(h) = one {
         let c = unhex(h);
@@ -698,9 +748,16 @@ fn run(prop: &str, one: Option<&str>) -> (Option<Mismatch>, usize) {
     }
     if prop == "C12" { let (m, k) = check_c12_domain(); return (m, n + k); }
     if prop == "C16" { let (m, k) = check_c16_domain(); if m.is_some() { return (m, n + k); } n += k; }
-    if ["C07", "C13"].contains(&prop) { for c in tlv_cases() { n += 1; if let Some(m) = check_tlv(&c) { return (Some(m), n); } } }
-    if ["C07", "C09", "C10", "C13"].contains(&prop) { for (w, ops) in builder_histories() { n += 1; if let Some(m) = check_builder(w, &ops, prop) { return (Some(m), n); } } }
-    if ["C07", "C20"].contains(&prop) { n += 1; if let Some(m) = check_encoders(prop == "C20") { return (Some(m), n); } }
+    if ["C07", "C09", "C10", "C13"].contains(&prop) {
+        for (w, ops) in builder_histories() {
+            // C07 / C13 speak about headers built WITHOUT an explicit length
+            if ["C07", "C13"].contains(&prop) && ops.iter().any(|o| matches!(o, Op::SetLen(_))) { continue; }
+            n += 1; if let Some(m) = check_builder(w, &ops, prop) { return (Some(m), n); }
+        }
+    }
+    if ["C07", "C10", "C20"].contains(&prop) { n += 1; if let Some(m) = check_encoders(prop == "C20") { return (Some(m), n); } }
+    if prop == "C20" { n += 1; if let Some(m) = check_c20_values() { return (Some(m), n); } }
+    if ["C07", "C10", "C13"].contains(&prop) { let (m, k) = check_builder_ctors(); if m.is_some() { return (m, n + k); } n += k; }
     if prop == "C07" { let (m, k) = check_c07_roundtrip(); if m.is_some() { return (m, n + k); } n += k; }
     if prop == "C19" { n += 1; if let Some(m) = check_constructors() { return (Some(m), n); } }
     if prop == "C08" { n += 1; if let Some(m) = check_format() { return (Some(m), n); } }
